@@ -779,7 +779,39 @@ pub fn c08_case(c: &Case, r: &mut Rng, nperturb: usize, max_limit: u32) -> CaseO
     for _ in 0..nperturb {
         vectors.push((perturb(r, &base, max_limit), false));
     }
+    // the panic-site checkers of the match finder (Model/ChainsSafe.lean) against the code, also OUTSIDE
+    // the range the oracle judges: lazy + zlib_compatible matching with a chain depth below 4 (the
+    // documented `max_chain -= 1` underflow) and an out-of-range zlib hash shift. The implementation's
+    // outcome class (panic or not) is the expected answer; nothing here is an oracle failure.
+    if d.len() <= 2500 {
+        for k in 0..2u32 {
+            let mut v = base.clone();
+            if k == 0 {
+                v[18] = 1;
+                v[2] = 1;
+                v[11] = 4;
+                v[12] = 258;
+                v[13] = 258;
+                v[14] = 1 + r.below(3) as u32;
+                v[16] = 0;
+                v[17] = 0;
+            } else {
+                v[4] = 1;
+                v[5] = 16 + r.below(8) as u32;
+                v[6] = 32767;
+            }
+            let cls = match guarded(|| vh::analyze_with_params(d, &v)) {
+                Run::Panic(_) => "panic",
+                _ => "ok",
+            };
+            out.requests.push((format!("chk {} {}", vec_str(&v), hex(d)), cls.to_string()));
+        }
+    }
     for (v, is_est) in vectors {
+        if d.len() <= 2500 {
+            // in range: the checkers must say "no panic site reached" (and the oracle below agrees)
+            out.requests.push((format!("chk {} {}", vec_str(&v), hex(d)), "ok".to_string()));
+        }
         let replay = format!("params {} {}", vec_str(&v), hex(d));
         crate::util::in_flight(&replay);
         let analysis = guarded(|| vh::analyze_with_params(d, &v));
